@@ -37,7 +37,7 @@ CLAIMS.update({
          "Exactness over arbitrary fork trees is not decided; index units (absolute vs position, cache.units) and the tabled boundary comparisons (cmp.spec) are.", "DESIGN.md §3 E6,E7; §4 C16"),
  "C17": ("CFG lockset dataflow (must/may-held), same-receiver call-graph re-entrancy, check-then-act and lazy-init shape rules",
          "Structural: classical lock-discipline analysis over every mutex-carrying type in the module; decides absence of unlocked access, lock leaks and self-deadlock on all paths (not schedules sampled).",
-         "Field-level aliasing beyond the receiver is not tracked; linearizability is not decided. Two genuine findings are recorded, not repaired.", "DESIGN.md §3 E2-E5; §4 C17"),
+         "Field-level aliasing beyond the receiver is not tracked; linearizability is not decided. Two genuine findings (check-then-act in PubkeyCache.AddValidator, unsynchronised lazy decompression in CachedPubkey) were first recorded and later repaired by fix: commits; none is open.", "DESIGN.md §3 E2-E5; §4 C17"),
  "C20": ("constructor/map-initialisation, nil-lookup and lockset rules on the pool package",
          "Structural: pools cannot panic on a nil map or nil lookup and hold their lock around index access. Necessary conditions of 'never panics'.",
          "Content-level pool invariants are not decided beyond the key agreement of the per-validator maps (pool.keys) and the tabled length guards (cmp.spec).", "DESIGN.md §3 B3,B2b,E2; §4 C20"),
@@ -45,10 +45,10 @@ CLAIMS.update({
 CLAIMS.update({
  "C01": ("CFG must-pass-through (vertex-cut) analysis of per-fork block pipelines against frozen spec stage tables, plus error-flow, argument-order, limit and view-shape rules on the block path",
          "Structural: the composition of the block transition (which sub-transitions, which fork variant, dependent order, error propagation, signature-before/root-after) is the spec's for every fork; exhaustive over paths of the pipeline functions. Necessary conditions of spec equality, not arithmetic equality.",
-         "Stage tables and the cmp.spec comparison table transcribed from consensus-specs v1.5.0-beta.2; arithmetic inside stages is not decided apart from wrap-around stores (ring.mod).", "DESIGN.md §3 C1-C3,B1,B7,C7,C10; §9"),
+         "Stage tables, the comparison table (cmp.spec, 210 entries) and the formula table (formula.spec, 174 entries) are transcribed/reviewed against consensus-specs v1.5.0-beta.2; comparisons and assignments outside those tables, and the numeric range of every quantity, are not decided.", "DESIGN.md §3 C1-C3,B1,B7,C7,C10; §9"),
  "C02": ("CFG ordering analysis of the slot loop and per-fork epoch pipelines + upgrade carry-over tracing",
          "Structural: slot loop order, epoch stage sets/variants/dependent order, upgrade dispatch and field carry-over are the spec's on every path. Necessary conditions; epoch arithmetic is not decided.",
-         "Stage tables and cmp.spec comparison table transcribed from the spec; numeric sub-transitions not decided apart from ring-buffer indexing (ring.mod) and the reach of the Deneb activation cap (churn.flow).", "DESIGN.md §3 C1,C3,C7,A8,D2"),
+         "Stage, comparison and formula tables transcribed/reviewed against the spec; arithmetic outside the 174 tabled assignments and overflow behaviour are not decided.", "DESIGN.md §3 C1,C3,C7,A8,D2"),
  "C03": ("error-flow analysis over all error-returning call sites + BLS domain/object tracing + panic-shape rules",
          "Structural: no check's failure can be dropped on the way to the caller, every signature check is complete and domain-separated per the spec's table, and the exact panic shapes are absent; exhaustive over ~2900 call sites and 17 verification sites.",
          "Boundary comparisons are decided only for the 116 entries of the reviewed table (cmp.spec: operands, operator, offset); other comparisons are not; guarded explicit panics are listed, not judged.", "DESIGN.md §3 B1,B2,B4,B7,B8"),
